@@ -157,3 +157,10 @@ Example C02_idle_then_newer_event :
   let c := {| size := 10; ooo := 5; lateness := 0; idle := 1000 |} in
   run_curs c st0 [Add 1 100 0; Tick 5000; Add 2 200 5000] = [Some 95; Some 4995; Some 4995].
 Proof. exact idle_then_newer_event. Qed.
+
+(* the 24 h future guard is measured against the clock: whatever was accepted before, no received watermark is more
+   than a day ahead of the latest clock reading of the history *)
+Theorem C02_future_guard_bounds_watermarks : forall c h n s tr,
+  0 <= ooo c -> Forall (op_clock_le n) h -> run c st0 h = (s, tr) -> wm_beyond_guard n tr = None.
+Proof. exact model_respects_future_guard. Qed.
+Print Assumptions C02_future_guard_bounds_watermarks.
